@@ -33,6 +33,7 @@ def rand_class(rng, max_alpha=3, max_prefix=3, max_stats=3, bytes_p=0.15, atoms=
         "prefix": prefix, "patterns": sorted(pats), "alphabet": alphabet,
         "just_prefix": bool(atoms and rng.random() < 0.2),
         "stats": stats, "bytes": rng.random() < bytes_p,
+        "proper": bool(rng.random() < 0.1),
     }
 
 
@@ -64,7 +65,7 @@ def rand_pack(rng, cls=None, allow_iterative=True, allow_prefix_ver=True, allow_
         vers += ["prefix1", "prefix2"]
     o["ver"] = rng.choice(vers)
     o["iterative"] = bool(allow_iterative and rng.random() < 0.15)
-    o["two_way"] = not (allow_one_way and rng.random() < 0.3)
+    o["plus"] = rng.random() < 0.35
     return o
 
 
